@@ -14,6 +14,9 @@ import DadiVerif.Model.Extrap
    c07.xdispatch <explicit> <attrs> <y;y;...> -> as c07.dispatch, x values chosen by the model
    c07.xfull <m> <explicit> <attrs> <y;y;...> -> as c07.full, x values chosen by the model
    c07.binding                                -> ok p=v;p=v;...        (make_extrap_log_func -> make_extrap_func argument binding)
+   c07.mask <corner 0|1> <b,b,...>            -> ok 0|1                (mask bit of one entry of the extrapolated Spectrum from the mask
+                                                                       bits of that entry in the k results: generated dispatch + formulas
+                                                                       run on mask bits with the generated `specArithMask`)
    Errors: `err NameError:<fn>` `err ValueError:count` `err ValueError:unpack` `err nondistinct` `err shape`. -/
 namespace DadiVerif.Driver.Extrap
 open DadiVerif DadiVerif.Proto DadiVerif.Extrap
@@ -87,6 +90,13 @@ def handle (toks : List String) : Option String :=
           | .error e => some ("err " ++ e)
   | ["c07.binding"] =>
       some ("ok " ++ ";".intercalate (Gen.Extrap.logWrapperBinding.map fun (p, v) => s!"{p}={v}"))
+  | ["c07.mask", c, bits] => do
+      let c ← (if c = "1" then some true else if c = "0" then some false else none)
+      let bs ← (if bits = "-" then some [] else (bits.splitOn ",").mapM fun t =>
+        if t = "1" then some true else if t = "0" then some false else none)
+      match maskResult c bs with
+      | some m => some (if m then "ok 1" else "ok 0")
+      | none => some "err refused"
   | ["c07.argmin", xs] => do
       let xs ← parseList xs
       if xs.isEmpty then some "err ValueError:empty" else some s!"ok {argminIdx xs}"
